@@ -23,6 +23,7 @@ type SpecEnv struct {
 	home   *packages.Package // package whose contract file the expression comes from
 	results []Val
 	inOld  bool
+	loopPre *State // state at entry of the innermost loop (for loopentry(...))
 }
 
 type specErr struct{ msg string }
@@ -214,11 +215,11 @@ func (env *SpecEnv) binary(x *SBinary) Val {
 	b := env.eval(x.Y)
 	switch x.Op {
 	case "==", "!=":
-		a, b = env.unify(a, b)
 		var t string
 		if (a.Ty != nil && isUntypedNil(a.Ty)) || (b.Ty != nil && isUntypedNil(b.Ty)) || (a.Ty != nil && b.Ty != nil && isInterface(a.Ty) != isInterface(b.Ty)) {
 			t = u.equal(env.st, a, b, token.NoPos)
 		} else {
+			a, b = env.unify(a, b)
 			if a.So != b.So {
 				env.fail("comparing different sorts %s and %s in %s", a.So, b.So, x.String())
 			}
@@ -368,6 +369,12 @@ func (env *SpecEnv) sel(x *SSel) Val {
 					return u.constVal(o.Val(), o.Type())
 				case *types.Var:
 					return u.readGlobal(env.st, o)
+				case *types.Func:
+					pk, key := funcKey(o)
+					n := "fn_" + mangle(pk) + "_" + mangle(key)
+					u.d.constant(n, "Int")
+					u.d.axiom("fnnonnil."+n, app(">", n, "0"))
+					return Val{T: n, Ty: o.Type(), So: "Int"}
 				}
 				env.fail("%s.%s is not a constant or variable", id.Name, x.Name)
 			}
@@ -561,6 +568,13 @@ func (env *SpecEnv) call(x *SCall) Val {
 		case "zero":
 			ty, _ := u.resolveType(env.home, x.Args[0].(*SType).T)
 			return u.zero(ty)
+		case "loopentry":
+			if env.loopPre == nil {
+				env.fail("loopentry() outside a loop clause")
+			}
+			n := *env
+			n.st = env.loopPre
+			return n.eval(x.Args[0])
 		case "count":
 			name := x.Args[0].(*SIdent).Name
 			if v, ok := env.st.ghost["count:"+name]; ok {
